@@ -10,8 +10,9 @@ from ..terms import valida
 
 PROP = "C20"
 IMPORTS = "Py Check Html RunHtml"
-THEOREMS = []
+THEOREMS = ["C20_html_balanced", "C20_escape_clean", "C20_html_escaped", "C20_code_clean"]
 FACT_LEMMAS = []
+DEPENDS = ["Html.v", "RunHtml.v", "Proofs/C20Proof.v", "Properties/C20.v", "Py.v", "Check.v"]
 ASSUMPTIONS = ["str() / repr() of parts, conditions and types is supplied by the implementation (oracle); the tree assembly "
                "(to_tree) is checked by the model-free oracle only, the HTML writer is modelled and proved",
                "anchor_root is caller-supplied id text inserted as it is; anchors are drawn from [A-Za-z0-9_-]+"]
